@@ -47,6 +47,8 @@ HOURLY_PROFILES = {
     # with baselines that hold a few odd (month, weekday) cells (family flag 'oddcells') the clustering yields clusters below this size:
     # their cells are merged into the outlier group (label -1)
     "minsize5": {"temporal_cluster": {"min_cluster_size": 5, "n_cluster_lower": 3, "recluster_count": 1}},
+    # a non-solar profile that takes irradiance as a supplemental regressor (use with the ':ghi' flag): fitted features != configured features
+    "nonsolar-supp-ghi": {"train_features": ["temperature"], "supplemental_time_series_columns": ["ghi"]},
 }
 # the alternatives above that are not in FAMILIES_QUICK: driven by C01 in both tiers (its statement quantifies over every accepted profile)
 HOURLY_ALTERNATIVES = ["nobins", "nointercept", "edge-rate", "cluster-silhouette", "cluster-silmed", "cluster-db", "cluster-manhattan", "cluster-cosine", "cluster-seuclid",
@@ -127,6 +129,7 @@ class Family:
         self.irregular = "irregular" in parts[2:]            # seed-sensitive load shapes
         self.occupancy = self.kind == "hourly" and self.profile.startswith("supp")
         self.oddcells = "oddcells" in parts[2:]              # a few (month, weekday) cells with a load shape of their own (holiday weekends)
+        self.timer = "timer" in parts[2:]                    # a timer-driven load: exactly the same daily schedule all year, no noise
 
     # ---- classes ------------------------------------------------------------------------------------
     def classes(self):
@@ -160,6 +163,9 @@ class Family:
             return tdf.join(bdf).iloc[:-1]
         df = synth_hourly(tz=tz, start=start or "2018-01-01", days=days, seed=rng, ghi=self.ghi, noise=noise,
                           irregular=self.irregular, occupancy=self.occupancy, occupancy_name=OCC_NAME)
+        if self.timer:
+            sched = np.array([2, 2, 2, 2, 2, 3, 5, 8, 9, 9, 9, 9, 8, 9, 9, 9, 8, 6, 5, 4, 3, 3, 2, 2], dtype=float)
+            df["observed"] = sched[df.index.hour.values]
         if self.oddcells:
             sel = np.zeros(len(df), bool)
             for mth, dow in ((12, 5), (12, 6), (1, 6)):
